@@ -256,7 +256,7 @@ PROPS = {
     },
     "C12": {
         "level": "exploration",
-        "groups": [g("main", "c12", q=8, t=16, run="^Test(Regress|Constants|Decode|SizeGate|Frames)$")],
+        "groups": [g("main", "c12", q=8, t=16, run="^Test(Regress|Constants|Decode|SizeGate|Frames|FieldSweep)$")],
         "fuzz": [{"pkg": "c12", "target": "FuzzDecodeProtobuf", "seconds": 150}, {"pkg": "c12", "target": "FuzzDecodeJSON", "seconds": 150}],
         "timeout": {"quick": 400, "thorough": 2400},
         "rule": ("generated: (decode) per codec: random bytes, hostile constants (length prefix 0x7fffffff, null inside repeated fields and maps, "
